@@ -9,6 +9,7 @@ import (
 	"iter"
 	"strconv"
 	"strings"
+	"sync"
 
 	"github.com/ddddddO/gtree"
 	"github.com/fatih/color"
@@ -91,7 +92,10 @@ func runHist(spec string, massive bool) string {
 			fail := parseFail(f[6])
 			var vs []visitRec
 			i := 0
+			var vmu sync.Mutex // with the massive option the callback is invoked from several workers
 			cb := func(wn *gtree.WalkerNode) error {
+				vmu.Lock()
+				defer vmu.Unlock()
 				vs = append(vs, recVisit(wn))
 				i++
 				if i-1 == fail {
@@ -224,7 +228,10 @@ func runHist(spec string, massive bool) string {
 			fail := parseFail(f[5])
 			var vs []visitRec
 			i := 0
+			var vmu sync.Mutex // with the massive option the callback is invoked from several workers
 			cb := func(wn *gtree.WalkerNode) error {
+				vmu.Lock()
+				defer vmu.Unlock()
 				vs = append(vs, recVisit(wn))
 				i++
 				if i-1 == fail {
